@@ -439,6 +439,7 @@ def check_ensq(case, ctx):
     datan = mat.make_data(spec_neg)
     ds = model.DS(spec)
     prev = None
+    avail_first = None
     ens = mat.arr(d["ens"])
     # positions in sorted dims
     order_t = [d["ti"].index(i) for i in sorted(d["ti"], key=lambda i: spec["times"][i])]
@@ -473,6 +474,28 @@ def check_ensq(case, ctx):
             if not cmpx.close(-gneg[idx], g, 1e-9):
                 ctx.fail("C08/ens-quantile/symmetry", sub, "q(-ens, 1-%g) = %r but q(ens, %g) = %r" % (q, gneg[idx], q, g))
                 break
+        # cases with some (not all) members missing: whether the case yields a quantile is a matter of its members, not of the level
+        # asked for; a value, where given, lies within the range of the members that exist and mirrors under negation
+        partial = np.isnan(ens).any(axis=3) & ~np.isnan(ens).all(axis=3)
+        if partial.any():
+            ctx.label("ens-quantile/partly-missing-members")
+            avail = ~np.isnan(got)
+            if avail_first is None:
+                avail_first = (q, avail)
+            for idx in zip(*np.where(partial)):
+                g = got[idx]
+                members = ens[idx][~np.isnan(ens[idx])]
+                if avail[idx] != avail_first[1][idx]:
+                    ctx.fail("C08/ens-quantile/partial/level-dependent", sub, "members %r: level %g gives %r but level %g gives %r"
+                             % (ens[idx].tolist(), avail_first[0], "a value" if avail_first[1][idx] else "missing", q, g))
+                    break
+                if avail[idx] and (g < members.min() - 1e-9 or g > members.max() + 1e-9):
+                    ctx.fail("C08/ens-quantile/partial/range", sub, "members %r: level %g gives %r" % (ens[idx].tolist(), q, g))
+                    break
+                gn = gneg[idx]
+                if np.isnan(gn) != np.isnan(g) or (avail[idx] and not cmpx.close(-gn, g, 1e-9)):
+                    ctx.fail("C08/ens-quantile/partial/symmetry", sub, "members %r: q(ens, %g) = %r but q(-ens, 1-%g) = %r" % (ens[idx].tolist(), q, g, q, gn))
+                    break
         if q == 0.0 and complete.any():
             if not np.allclose(got[complete], lo[complete]):
                 ctx.fail("C08/ens-quantile/level0", sub, "level 0 is not the smallest member")
